@@ -185,7 +185,8 @@ def sched_runs(run, harness, kinds, focus, tags, quick=(60, 6), thorough=(1500, 
         for cf in sorted(glob.glob(os.path.join(R.VERIF, "corpus", "sched", "*_%s.txt" % kind))):
             R.sched_exploration(run, harness, "corpus_%s" % os.path.basename(cf)[:-4], ["file=" + cf], tags, lin=lin)
         for sd in seeds:
-            args = ["kind=" + kind, "seed=%d" % sd, "nprog=%d" % nprog, "nsched=%d" % nsched]
+            # besides the random / pre-emption-bounded schedules: every one-pre-emption schedule of the first programs
+            args = ["kind=" + kind, "seed=%d" % sd, "nprog=%d" % nprog, "nsched=%d" % nsched, "exh=%d" % Q(run, 4, 40)]
             if focus:
                 args.append("focus=" + focus)
             R.sched_exploration(run, harness, "sched_%s%s_%s_s%d" % (label, focus or "mix", kind, sd), args, tags, lin=lin)
